@@ -136,6 +136,27 @@ func unitsAll(prop string, mon Monitor) func(tier string) []runner.Unit {
 				}
 			}
 		}})
+		// long one-way transfers: one end only receives acknowledgements for more than a minute
+		// (longer than every idle timeout of the stack), no fault
+		us = append(us, runner.Unit{Name: "long-one-way", Cost: 6, Run: func(u *runner.U) {
+			for i, base := range []Params{
+				{CW: many(350, 1000), SW: []int{1}, RB: 4096},
+				{CW: []int{1}, SW: many(350, 1000), RB: 4096},
+				{CW: many(140, 700), SW: []int{1}, RB: 4096, NoWait: true, CTP: "pad255", STP: "nil"},
+			} {
+				p := base
+				p.Prop, p.UDP, p.MTU, p.Latency, p.NSess, p.Seed = prop, true, 1400, 20*time.Millisecond, 1, int64(500+i)
+				if p.CTP == "" {
+					p.CTP, p.STP = "nil", "nil"
+				}
+				p.WriteGap = 200 * time.Millisecond
+				if i == 2 {
+					p.WriteGap = 500 * time.Millisecond
+				}
+				p.Horizon = 400 * time.Second
+				RunOne(u, p, pats, explore.Bound{}, mon)
+			}
+		}})
 		// scheduling deviations
 		schedBases := []Params{
 			{CW: []int{1, 1025}, SW: []int{1500}, RB: 4096, CTP: "nil", STP: "nil", NSess: 1, MTU: 1400, Latency: 5 * time.Millisecond},
@@ -152,4 +173,12 @@ func unitsAll(prop string, mon Monitor) func(tier string) []runner.Unit {
 		}
 		return us
 	}
+}
+
+func many(n, size int) []int {
+	out := make([]int, n)
+	for i := range out {
+		out[i] = size
+	}
+	return out
 }
